@@ -397,15 +397,39 @@ fn run_one_shard(def: &PropDef, tier: Tier, shard: u64, nshards: u64, seed: u64)
     loop {
         let _ = std::fs::remove_file(dir.join(format!("shard-{shard}.json")));
         let skip_s = skip.iter().map(|k| k.to_string()).collect::<Vec<_>>().join(",");
-        let st = std::process::Command::new(&exe)
+        let mut child = std::process::Command::new(&exe)
             .args(["worker", def.id, tier.name(), &shard.to_string(), &nshards.to_string(), &seed.to_string(), &skip_s])
             .stdout(std::process::Stdio::null())
             .stderr(std::process::Stdio::piped())
             .spawn()
-            .map_err(|e| format!("spawn: {e}"))?
-            .wait_with_output()
-            .map_err(|e| format!("wait: {e}"))?;
-        if st.status.success() {
+            .map_err(|e| format!("spawn: {e}"))?;
+        // watchdog: the worker stops by itself at its cap; a worker that is still alive well after
+        // that is stuck inside one case (a hang is an observation about that case)
+        let cap = tier.pick(def.caps.0, def.caps.1);
+        let cap = std::env::var("VERIF_CAP_S").ok().and_then(|s| s.parse().ok()).unwrap_or(cap);
+        let t0 = Instant::now();
+        let mut last_progress = (0u64, Instant::now());
+        let mut hung = false;
+        loop {
+            match child.try_wait() {
+                Ok(Some(_)) => break,
+                Ok(None) => {}
+                Err(e) => return Err(format!("wait: {e}")),
+            }
+            let k = read_u64s(&dir.join(format!("shard-{shard}.progress"))).first().copied().unwrap_or(0);
+            if k != last_progress.0 {
+                last_progress = (k, Instant::now());
+            }
+            // no progress on one case for 60 s, or overall far past the cap
+            if (k != 0 && k != u64::MAX && last_progress.1.elapsed() > Duration::from_secs(60)) || t0.elapsed() > Duration::from_secs(cap + 120) {
+                let _ = child.kill();
+                hung = true;
+                break;
+            }
+            std::thread::sleep(Duration::from_millis(20));
+        }
+        let st = child.wait_with_output().map_err(|e| format!("wait: {e}"))?;
+        if st.status.success() && !hung {
             let txt = std::fs::read_to_string(dir.join(format!("shard-{shard}.json"))).map_err(|e| format!("shard {shard} result: {e}"))?;
             let json: Value = serde_json::from_str(&txt).map_err(|e| e.to_string())?;
             return Ok(ShardRes { json, crashes });
@@ -417,7 +441,9 @@ fn run_one_shard(def: &PropDef, tier: Tier, shard: u64, nshards: u64, seed: u64)
             return Err(format!("worker {shard} died outside a case ({}): {err_tail}", exit_desc(&st.status)));
         }
         let idx = k - 1;
-        let what = if err_tail.contains("overflowed its stack") {
+        let what = if hung {
+            "timeout".to_string()
+        } else if err_tail.contains("overflowed its stack") {
             "stack-overflow".to_string()
         } else if err_tail.contains("memory allocation") {
             "alloc-failure".to_string()
